@@ -132,6 +132,50 @@ theorem growth_in_main_copy_crashes (app : R → M → M) (s : St M R) (h3 : s.s
 theorem second_backup_refused (s : St M R) (h : s.stage ≠ 0) : (bkpStart s).2 = false := by
   simp [bkpStart, h]
 
+/-- **the final stage is one instant**: once the final savepoint is taken (stage 5, exclusive lock held) no
+    event except the end of the backup changes anything at all — this is the statement the comment of
+    `image_recovers_to_final_savepoint_partial` relies on, for every event. -/
+theorem stage5_only_finish (app : R → M → M) (s : St M R) (e : Evt R) (h5 : s.stage = 5)
+    (he : e ≠ .bkpFinish) : step app s e = s := by
+  cases e with
+  | bkpFinish => exact absurd rfl he
+  | bkpStart => simp [step, bkpStart, h5]
+  | _ => simp [step, h5]
+
+/-- any events between the final savepoint and the end of the backup leave the store as it was -/
+theorem stage5_run_frozen (app : R → M → M) (s : St M R) (es : List (Evt R)) (h5 : s.stage = 5)
+    (hes : ∀ e ∈ es, e ≠ .bkpFinish) : run app s es = s := by
+  induction es with
+  | nil => rfl
+  | cons e es ih =>
+    have h1 : step app s e = s := stage5_only_finish app s e h5 (hes e (by simp))
+    have hrun : run app s (e :: es) = run app (step app s e) es := rfl
+    rw [hrun, h1]
+    exact ih (fun e' he' => hes e' (by simp [he']))
+
+/-- a crashed store does nothing (F25 is terminal in the model: no later event hides it) -/
+theorem crashed_step_frozen (app : R → M → M) (s : St M R) (e : Evt R) (hc : s.crashed = true) :
+    step app s e = s := by
+  cases e <;> simp [step, hc]
+
+theorem crashed_run_frozen (app : R → M → M) (s : St M R) (es : List (Evt R)) (hc : s.crashed = true) :
+    run app s es = s := by
+  induction es with
+  | nil => rfl
+  | cons e es ih =>
+    have hrun : run app s (e :: es) = run app (step app s e) es := rfl
+    rw [hrun, crashed_step_frozen app s e hc]
+    exact ih
+
+/-- **the backup ends**: finishing returns the stage machine to idle (a further backup can start) and asks for
+    the checkpoint that truncates the log kept during the backup; the contents read by the API are untouched. -/
+theorem finish_returns_to_idle (app : R → M → M) (s : St M R) (hc : s.crashed = false) (h5 : s.stage = 5) :
+    (step app s .bkpFinish).stage = 0 ∧ (step app s .bkpFinish).forceCp = true ∧
+      (step app s .bkpFinish).mem = s.mem ∧ (step app s .bkpFinish).main = s.main ∧
+      (bkpStart (step app s .bkpFinish)).2 = true := by
+  simp only [step, hc, h5, bkpFinish]
+  cases s.imgMain <;> simp [bkpStart]
+
 /-- non-vacuity: a concrete history over a counter store reaches stage 5 without a crash, and its image
     recovers to the contents at the final savepoint (3 = 1 + 2; the write after the backup is not in it) -/
 example :
